@@ -423,6 +423,11 @@ struct Digit {
                         number.Integer = -number.Integer;
                         return QNumberType::Integer;
                     }
+
+                    if (number.Natural == 0x8000000000000000ULL) {
+                        // -2^63 fits a signed 64-bit integer, and its bit pattern is the magnitude's.
+                        return QNumberType::Integer;
+                    }
                 }
                 ///////////////////////////////////////////////////////////
                 if (number.Natural != 0) {
